@@ -170,11 +170,11 @@ class Hist:
                 self.steps.append({"op": "clone", "name": ref, "src": "t"})
                 self.steps.append({"op": "compose", "tree": ref, "other": name, "prune": False})
                 b = self.export(ref)
-                self.steps.append({"op": "compose", "tree": "t", "other": name, "prune": True})
+                self.steps.append({"op": "compose", "tree": "t", "other": name, "prune": True, "verbose": rng.random() < 0.15})
                 a = self.export("t")
                 self.checkpoints.append({"kind": "compose_t", "before": b, "after": a, "upto": len(self.steps), "call": len(self.steps) - 2})
             else:
-                self.steps.append({"op": "compose", "tree": "t", "other": name, "prune": False})
+                self.steps.append({"op": "compose", "tree": "t", "other": name, "prune": False, "verbose": rng.random() < 0.15})
             self.m = newm
             self.word.append(label)
         elif op == "apply_func":
